@@ -1,3 +1,4 @@
+#define HV_EIGEN_ASSERT_THROWS
 // C17 numeric harness on the real library: subgroup relations, lifts / projections, C1 factorisation, axis rotations,
 // conversions (quaternion, complex, isometry, Euler), SO2 angle ranges incl. the branch cuts and signed zeros.
 #include "docmat.hpp"
@@ -211,7 +212,9 @@ void relations(Rng & rng, int n)
   }
 }
 
-int main()
+static int hv_main();
+int main() { return hv::guard(hv_main); }
+static int hv_main()
 {
   Report rep;
   rep.property = "C17";
